@@ -1,6 +1,9 @@
 package main
 
-import "strings"
+import (
+	"sort"
+	"strings"
+)
 
 // Atom sets made of the different ways of writing ONE license, and of the versions of ONE family:
 // code that keys, prunes or de-duplicates terms by something coarser than the term (the bare id, the
@@ -93,6 +96,76 @@ func nameRelatives(d string) []string {
 				}
 			}
 		}
+	}
+	return out
+}
+
+// idNeighbours: the listed license ids a comparison shortcut could confuse with a: its predecessor and
+// successor in case-insensitive order of all listed ids, and every listed id whose text is a proper prefix
+// of a up to a '-' (MIT for MIT-0, ISC for ISC-Veillard, GPL-2.0 for GPL-2.0-only).
+var sortedIDsCache []string
+
+func idNeighbours(a string) []string {
+	if sortedIDsCache == nil {
+		sortedIDsCache = append([]string{}, T().AllLicenseIDs()...)
+		sort.Slice(sortedIDsCache, func(i, j int) bool {
+			return strings.ToLower(sortedIDsCache[i]) < strings.ToLower(sortedIDsCache[j])
+		})
+	}
+	ids := sortedIDsCache
+	la := strings.ToLower(a)
+	seen := map[string]bool{a: true}
+	var out []string
+	add := func(b string) {
+		if !seen[b] && !strings.HasSuffix(b, "+") {
+			seen[b] = true
+			out = append(out, b)
+		}
+	}
+	i := sort.Search(len(ids), func(i int) bool { return strings.ToLower(ids[i]) >= la })
+	if i > 0 {
+		add(ids[i-1])
+	}
+	if i+1 < len(ids) {
+		add(ids[i+1])
+	}
+	for _, b := range ids {
+		if strings.HasPrefix(la, strings.ToLower(b)+"-") {
+			add(b)
+		}
+	}
+	return out
+}
+
+// inBetweenIDs: listed ids outside family f that sort (case-insensitively) between the first and the last
+// of f's table ids - entries that end up between two versions of f when an allowed list is sorted.
+func inBetweenIDs(f *Family, max int) []string {
+	member := map[string]bool{}
+	lo, hi := "", ""
+	for _, st := range f.Steps {
+		for _, id := range st {
+			l := strings.ToLower(id)
+			member[l] = true
+			if lo == "" || l < lo {
+				lo = l
+			}
+			if l > hi {
+				hi = l
+			}
+		}
+	}
+	idNeighbours("MIT") // fills sortedIDsCache
+	var out []string
+	for _, id := range sortedIDsCache {
+		l := strings.ToLower(id)
+		if l > lo && l < hi && !member[l] && !strings.HasSuffix(id, "+") {
+			if _, inTable := tablePos()[id]; !inTable {
+				out = append(out, id)
+			}
+		}
+	}
+	if len(out) > max {
+		out = append(append([]string{}, out[:max/2]...), out[len(out)-(max-max/2):]...)
 	}
 	return out
 }
